@@ -33,6 +33,10 @@ func (a *AuditLogIngester) Ingest(ctx context.Context) error {
 }
 
 func (a *AuditLogIngester) Process(ctx context.Context, line string) error {
-	a.AuditLogChan <- line
-	return nil
+	select {
+	case <-ctx.Done():
+		return ctx.Err()
+	case a.AuditLogChan <- line:
+		return nil
+	}
 }
